@@ -152,9 +152,22 @@ package wal
 //@   assigns s.refCount, s.finalizer
 //@   ensures true
 
+//@ -- the persisted view lists the map in key order: SInv carries over to PInv
 //@ func (*state).Persistent
-//@   trusted contents of the persisted view are covered by the segment-map model (not yet under contract)
-//@   ensures true
+//@   props C03 C04 C13
+//@   requires SInv(s)
+//@   ensures[C03.persist-pinv] types.PInv(result)
+//@   ensures[C13.persist-nextid] result.NextSegmentID == s.nextSegmentID
+//@   ensures[C04.persist-complete] (smnonempty(s.segments) <==> len(result.Segments) > 0) && (smnonempty(s.segments) ==> result.Segments[0].BaseIndex == smmin(s.segments)
+//@        && result.Segments[len(result.Segments)-1].BaseIndex == smmax(s.segments))
+//@   ensures[C04.persist-entries] forall j int :: 0 <= j && j < len(result.Segments) ==> smhas(s.segments, result.Segments[j].BaseIndex) && SameInfo(result.Segments[j], smget(s.segments, result.Segments[j].BaseIndex))
+//@   loop 1 invariant len(segs) == 0 ==> (itvalid(it) <==> smnonempty(s.segments)) && (itvalid(it) ==> itcur(it) == smmin(s.segments))
+//@   loop 1 invariant itvalid(it) ==> smhas(s.segments, itcur(it))
+//@   loop 1 invariant len(segs) > 0 ==> segs[0].BaseIndex == smmin(s.segments) && smhas(s.segments, segs[len(segs)-1].BaseIndex)
+//@        && (itvalid(it) <==> hasnext(s.segments, segs[len(segs)-1].BaseIndex)) && (itvalid(it) ==> itcur(it) == smnext(s.segments, segs[len(segs)-1].BaseIndex))
+//@   loop 1 invariant forall j int :: 0 <= j && j < len(segs) ==> smhas(s.segments, segs[j].BaseIndex) && SameInfo(segs[j], smget(s.segments, segs[j].BaseIndex))
+//@   loop 1 invariant forall j int :: 0 <= j && j < len(segs) ==> (j > 0 ==> segs[j].BaseIndex != smmin(s.segments))
+//@   loop 1 invariant forall j int :: 0 <= j && j < len(segs) - 1 ==> hasnext(s.segments, segs[j].BaseIndex) && segs[j+1].BaseIndex == smnext(s.segments, segs[j].BaseIndex)
 
 //@ -- function-type contract of a metadata transaction body: it receives a clone
 //@ -- of the well-formed published state and, when it succeeds, leaves a state
@@ -435,6 +448,8 @@ package wal
 //@   ensures[C04.rotate-seals-tail] result2 == nil ==> smhas(newState.segments, old(smmax(newState.segments))) && !unsealedSeg(smget(newState.segments, old(smmax(newState.segments))))
 //@        && smget(newState.segments, old(smmax(newState.segments))).MaxIndex == newState.tail.last && smget(newState.segments, old(smmax(newState.segments))).IndexStart == indexStart
 //@   ensures[C04.rotate-new-tail] result2 == nil ==> smmax(newState.segments) == newState.tail.last + 1 && unsealedSeg(smget(newState.segments, smmax(newState.segments)))
+//@   ensures[C05.rotate-keeps-first] result2 == nil ==> result1 != nil && smmin(newState.segments) == old(smmin(newState.segments))
+//@        && smget(newState.segments, smmin(newState.segments)).MinIndex == old(smget(newState.segments, smmin(newState.segments)).MinIndex)
 //@   ensures[C13.rotate-fresh-id] result2 == nil ==> newState.nextSegmentID == old(newState.nextSegmentID) + 1 && smget(newState.segments, smmax(newState.segments)).ID == old(newState.nextSegmentID)
 //@   ensures result0 == nil
 
@@ -484,3 +499,43 @@ package wal
 //@   ensures[C04.tail-applied] result2 == nil ==> result1 != nil && smmax(newState.segments) == newMax + 1 && smmin(newState.segments) == old(smmin(newState.segments))
 //@        && smget(newState.segments, smmin(newState.segments)).MinIndex == old(smget(newState.segments, smmin(newState.segments)).MinIndex)
 //@   ensures[C13.tail-fresh-id] result2 == nil ==> newState.nextSegmentID == old(newState.nextSegmentID) + 1 && smget(newState.segments, smmax(newState.segments)).ID == old(newState.nextSegmentID)
+
+//@ -- rotation under the write lock (called by the background goroutine once the
+//@ -- tail segment sealed itself): one metadata commit, the view is unchanged and
+//@ -- the new tail is empty and appendable
+//@ func (*WAL).rotateSegmentLocked
+//@   props C03 C04 C05 C13
+//@   inlinecall mutateStateLocked
+//@   requires w.metaDB != nil && w.codec != nil && w.sf != nil && w.metrics != nil && av(w.s) != nil && WFS(av(w.s))
+//@   requires[assumed-headroom] Headroom(av(w.s))
+//@   requires[C03.rotate-sealed-nonempty] av(w.s).tail.last != 0
+//@   assigns g_commits, g_open, w.s, av(w.s).refCount, av(w.s).finalizer
+//@   ensures[C03.published-state-wf] av(w.s) != nil && WFS(av(w.s))
+//@   ensures[C05.rotate-keeps-view] result == nil ==> FirstOf(av(w.s)) == old(FirstOf(av(w.s))) && LastOf(av(w.s)) == old(LastOf(av(w.s)))
+//@   ensures[C03.rotate-new-tail-appendable] result == nil ==> !av(w.s).tail.sealed && av(w.s).tail.last == 0 && av(w.s).tail.base == old(LastOf(av(w.s))) + 1
+//@   ensures[C04.rotate-one-commit] result == nil ==> g_commits == old(g_commits) + 1
+//@   ensures[C10.published-only-on-success] result != nil ==> av(w.s) == old(av(w.s))
+
+//@ -- first append to an empty log at an index other than the tail's BaseIndex:
+//@ -- replace the empty tail by one with the right BaseIndex
+//@ func (*WAL).resetEmptyFirstSegmentBaseIndex$1
+//@   props C03 C05 C13
+//@   implements wal.stateTxn
+//@   cbinv w != nil && w.codec != nil && w.sf != nil && w.metrics != nil
+//@   requires Headroom(newState) && newBaseIndex < 0xffffffffffffff00
+//@   assigns newState.segments, newState.nextSegmentID, newState.nextBaseIndex, newState.tail
+//@   ensures[C05.reset-only-empty] old(LastOf(newState)) != 0 ==> result2 != nil
+//@   ensures[C05.reset-base] result2 == nil ==> smmin(newState.segments) == smmax(newState.segments) && (newBaseIndex != 0 ==> smmax(newState.segments) == newBaseIndex)
+//@   ensures[C05.reset-noop-keeps-tail] result2 == nil && result1 == nil ==> newState.tail.last == 0
+//@   ensures[C13.reset-fresh-id] result2 == nil && result1 != nil ==> newState.nextSegmentID == old(newState.nextSegmentID) + 1 && smget(newState.segments, smmax(newState.segments)).ID == old(newState.nextSegmentID)
+
+//@ func (*WAL).resetEmptyFirstSegmentBaseIndex
+//@   props C03 C05 C13
+//@   inlinecall mutateStateLocked
+//@   requires w.metaDB != nil && w.codec != nil && w.sf != nil && w.metrics != nil && av(w.s) != nil && WFS(av(w.s))
+//@   requires[assumed-headroom] Headroom(av(w.s)) && newBaseIndex < 0xffffffffffffff00
+//@   assigns g_commits, g_open, w.s, av(w.s).refCount, av(w.s).finalizer
+//@   ensures[C03.published-state-wf] av(w.s) != nil && WFS(av(w.s))
+//@   ensures[C05.reset-only-empty] old(LastOf(av(w.s))) != 0 ==> result != nil
+//@   ensures[C05.reset-applied] result == nil ==> EmptyLog(av(w.s)) && (newBaseIndex != 0 ==> av(w.s).tail.base == newBaseIndex)
+//@   ensures[C10.published-only-on-success] result != nil ==> av(w.s) == old(av(w.s))
